@@ -204,6 +204,9 @@ Definition index_suffix (i : Z) : string := " (index: " ++ show_Z i ++ ")".
 Definition find_block (name : string) (blocks : list lblock) : option lblock :=
   find (fun b => String.eqb (b_name b) name) blocks.
 
+(* i64 arithmetic of the real pass: a value outside i64 is an overflow panic *)
+Definition chk64 {A} (z : Z) (x : outcome A) : outcome A := if in_i64 z then x else Fail Overflow.
+
 (* get_block_claimed_addresses(device, block, current_address_offset, name_stack); the recursion goes
    through a lookup BY NAME among all blocks (first match), so it is not structural: fuel. *)
 Fixpoint claimed_methods (fuel : nat) (blocks : list lblock) (ms : list lmethod) (off : Z) (stack : list string)
@@ -215,20 +218,23 @@ Fixpoint claimed_methods (fuel : nat) (blocks : list lblock) (ms : list lmethod)
       let off' := off + m_address m in
       let count := rep_count (m_repeat m) in
       let stride := rep_stride (m_repeat m) in
+      chk64 off'
       match m_kind m with
       | MBlock name =>
           match find_block name blocks with
           | None => Fail AssertFail
           | Some sb =>
-              ocat (map (fun i => claimed_methods f blocks (b_methods sb) (off' + i * stride)
-                                    (stack ++ [(name ++ index_suffix i)%string])%list) (zrange count))
+              ocat (map (fun i => chk64 (i * stride) (chk64 (off' + i * stride)
+                                    (claimed_methods f blocks (b_methods sb) (off' + i * stride)
+                                       (stack ++ [(name ++ index_suffix i)%string])%list))) (zrange count))
           end
       | MLeaf k =>
-          Ok (map (fun i => {| c_name := String.concat "::" (stack ++ [m_name m])%list;
-                               c_index := if rep_is (m_repeat m) then Some i else None;
-                               c_address := off' + i * stride;
-                               c_allow := m_allow m;
-                               c_kind := k |}) (zrange count))
+          ocat (map (fun i => chk64 (i * stride) (chk64 (off' + i * stride)
+                        (Ok [{| c_name := String.concat "::" (stack ++ [m_name m])%list;
+                                c_index := if rep_is (m_repeat m) then Some i else None;
+                                c_address := off' + i * stride;
+                                c_allow := m_allow m;
+                                c_kind := k |}]))) (zrange count))
       end) ms)
   end.
 
@@ -380,13 +386,25 @@ Definition big_enough_kind (d : device) (k : akind) : option gen_error :=
 Definition address_types_big_enough (d : device) : option gen_error :=
   first_error (map (big_enough_kind d) [KRegister; KCommand; KBuffer]).
 
-(* the real pass panics (overflow checks on) when an intermediate leaves i64; evaluated lazily like the code:
-   a kind whose type is missing is not walked *)
-Definition big_enough_in_i64 (d : device) : bool :=
-  forallb (fun k => match address_type_of (d_config d) k with
-                    | None => true
-                    | Some _ => mm_ok (mm_walk (filter_kind k) (d_objects d))
-                    end) [KRegister; KCommand; KBuffer].
+(* The real pass computes in i64 with overflow checks and handles register, command, buffer one after the
+   other: an error of an earlier kind comes before a panic of a later kind's walk. *)
+Fixpoint big_enough_seq (d : device) (ks : list akind) : outcome (option gen_error) :=
+  match ks with
+  | [] => Ok None
+  | k :: t =>
+      match address_type_of (d_config d) k with
+      | None => big_enough_seq d t
+      | Some _ =>
+          if negb (mm_ok (mm_walk (filter_kind k) (d_objects d))) then Fail Overflow
+          else match big_enough_kind d k with
+               | Some e => Ok (Some e)
+               | None => big_enough_seq d t
+               end
+      end
+  end.
+
+Definition address_types_big_enough_i64 (d : device) : outcome (option gen_error) :=
+  big_enough_seq d [KRegister; KCommand; KBuffer].
 
 (* u64::next_power_of_two / ilog2 on mathematical integers *)
 Definition next_power_of_two (z : Z) : Z := if z <=? 1 then 1 else 2 ^ Z.log2_up z.
@@ -635,11 +653,10 @@ Definition addr_check (fx : bool) (fuel : nat) (dev_name : string) (d : device) 
   match address_types_specified d with
   | Some e => Ok (Some e)
   | None =>
-    if negb (big_enough_in_i64 d) then Fail Overflow
-    else
-    match address_types_big_enough d with
-    | Some e => Ok (Some e)
-    | None =>
+    match address_types_big_enough_i64 d with
+    | Fail k => Fail k
+    | Ok (Some e) => Ok (Some e)
+    | Ok None =>
       match lower fx fuel dev_name (d_objects d) with
       | Fail k => Fail k
       | Ok blocks =>
